@@ -149,6 +149,47 @@ def real_phase(run, prop, tier, wd, binary, scs, inv, mon_extra, tag="b"):
     return drift
 
 
+def engine_order_phase(run, tier, wd, binary, rng):
+    """C10 on the creation engine: the same dependency graph under permuted registration order, candidate order, singleton
+    name enumeration and edge realisation ends with the same status and the same objects in every field."""
+    ed = os.path.join(wd, "eng")
+    os.makedirs(ed)
+    vlib.stage_specs(ed, ["MonitorContainer.tla"])
+    scs = []
+    for i in range(120 if tier == "quick" else 2500):
+        n = rng.choice([3, 4, 6])
+        base = el.rand_scenario(rng, n, p_edge=rng.choice([0.3, 0.5]), fails=rng.choice([0, 0, 0.2]), lazies=rng.choice([0, 0.3]),
+                                wraps=rng.choice([0, 0, 0.3]), sid="C10-eng%d" % i)
+        for k in range(4):
+            s = dict(base)
+            o = list(range(1, n + 1)); rng.shuffle(o)
+            g = list(range(1, n + 1)); rng.shuffle(g)
+            s.update(order=o, regOrder=g, seed=rng.randint(0, 2 ** 31), id="%s.p%d" % (base["id"], k))
+            scs.append(s)
+    by_n = {}
+    for s in scs:
+        by_n.setdefault(s["n"], []).append(s)
+    for n, group in sorted(by_n.items()):
+        tr = el.run_engine(binary, ed, group, name="o%d" % n)
+        groups = el.split_trace(tr)
+        os.remove(tr)
+        units = [sum(groups[i:i + 4], []) for i in range(0, len(groups), 4)]     # the 4 permutations of one scenario
+        st, fails = el.validate_groups(ed, units, "MonitorContainer", dict(N=n),
+                                       ["M_C10_EngineSameOutcome", "M_C02_FailIffSelfOnly", "M_C09_FaultFails", "M_C02_NoReentry"], [], "eo%d" % n)
+        run.cov["states"] += st["states"]
+        run.cov["transitions"] += st["generated"]
+        run.cov["traces_validated_against_impl"] += len(groups)
+        for f in fails:
+            u = units[f["group"]]
+            sc0 = json.loads(u[0])["sc"]
+            if f["kind"] == "postcondition":
+                raise vlib.Infra("engine monitor could not consume a trace: " + f["tlc"][:400])
+            run.violation("engine runs of scenario %s under different orders: %s violated" % (sc0["id"], f["name"]),
+                          dict(kind="engine-order", scenarios=[json.loads(x)["sc"] for x in u if '"ev":"scenario"' in x[:40]], operator=f["name"]))
+    for s in scs[::4]:
+        run.count_case([s["single"], s["slice"], s["lazy"], s["wrap"], s["fail"]], True)
+
+
 def registry_phase(run, tier, wd, binary):
     """C07: two distinct components can never be registered under one name (Registry.tla, replay direction)"""
     import re
@@ -212,6 +253,8 @@ def run_check(prop, tier, replay=None):
         else:
             scs = scenarios_for(prop, tier, rng)
         drift = real_phase(run, prop, tier, workdir, binary, scs, INV[prop], MON_EXTRA[prop])
+        if prop == "C10" and replay is None:
+            engine_order_phase(run, tier, workdir, binary, rng)
         if prop == "C07" and replay is None:
             drift += registry_phase(run, tier, workdir, binary)
         if th:
